@@ -128,7 +128,7 @@ def main():
         "guard": "uutils_findutils_verif",
         "enable": "RUSTFLAGS='--cfg uutils_findutils_verif' cargo build --offline (harness/ depends on /repo by path)",
         "baseline_off_cmd": "cd /repo && cargo nextest run --workspace --no-fail-fast --tool-config-file pb:/w/lib/nextest.toml --profile pb --test-threads 8 --offline || cargo test --workspace --no-fail-fast --offline",
-        "source_commits": ["c70f986", "c063cd3", "efa1c21", "bb32859", "bf808dc", "b238943"],
+        "source_commits": ["c70f986", "c063cd3", "efa1c21", "bb32859", "bf808dc", "b238943", "ba430f1"],
         "add_only": True,
       },
       "engines": [{"name": "coq-model-correspondence", "path": "/verif/check.py",
